@@ -36,7 +36,7 @@ func (fc *flowChecker) variant(i int) taintVariant {
 	v := fc.variants[i]
 	if fc.id == "C02" {
 		v.Opts.Sanitizers = []string{"^sanitize1$"}
-		v.Opts.Validators = []string{"^validate1$", "^validateE$"}
+		v.Opts.Validators = []string{"^validate1$", "^validateE$", "^validateT$"}
 	}
 	return v
 }
